@@ -275,6 +275,10 @@ class C08(Check):
                     if codec in ('ber', 'der') and k % 3 == 2:
                         data = mutate_tlv(base, ms, other)
                         rec.cls('tlv-structural-mutations')
+                    elif textual and k % 4 == 1:
+                        # one mutation in four of a text document inflates one of its numbers
+                        data = mutate_text(base, [(6, ms[0][1], ms[0][2])] + list(ms[1:2]), other)
+                        rec.cls('number-inflation-mutations')
                     else:
                         data = (mutate_text if textual else mutate)(base, ms, other)
                     budget = int(max(FLOOR_EVENTS, FACTOR * max(rate, 1.0) * (len(data) + 64) * (tsize + 1)))
